@@ -31,15 +31,19 @@ Definition sqdev (l : list Q) : Q := Qsum (map (fun x => (x - mean l) * (x - mea
 (* sample variance *)
 Definition variance (l : list Q) : Q := sqdev l / (Qlen l - 1).
 
-(* closed form of the exponential moving average of x1..xn with smoothing k:
-     (1-k)^(n-1) x1 + sum_{i=2..n} k (1-k)^(n-i) xi ;   [ema_closed k (rev xs)] takes the newest value first *)
-Fixpoint ema_closed_rev (k : Q) (rxs : list Q) : Q :=
-  match rxs with
+(* closed form of the exponential moving average of x1..xn (oldest first) with smoothing k:
+     ema = sum_{i=0}^{n-2} k (1-k)^i x_{n-i}  +  (1-k)^(n-1) x_1
+   i.e. the i-th newest value has weight k (1-k)^i, the oldest one (which seeds the recurrence) (1-k)^(n-1). *)
+Fixpoint qpow (a : Q) (n : nat) : Q := match n with O => 1 | S m => a * qpow a m end.
+Fixpoint ema_terms (k : Q) (i : nat) (newest_first : list Q) : Q :=
+  match newest_first with
   | [] => 0
-  | [x1] => x1
-  | xn :: older => k * xn + (1 - k) * ema_closed_rev k older
+  | [x1] => qpow (1 - k) i * x1
+  | x :: older => k * qpow (1 - k) i * x + ema_terms k (S i) older
   end.
-(* the same as an explicit weighted sum: weight of the i-th newest value (i = 0 for the newest) *)
+Definition ema_explicit (k : Q) (xs : list Q) : Q := ema_terms k 0 (rev xs).
+
+(* the same as a dot product with a weight vector (convenient for the induction) *)
 Fixpoint ema_weights (k : Q) (n : nat) : list Q :=     (* weights for n values, newest first *)
   match n with
   | O => []
